@@ -23,6 +23,22 @@ for q in plan.functions:
             for h in ob.hyps:
                 print("  HYP", h.sexpr()[:1500])
             print("  GOAL", ob.goal.sexpr()[:3000])
+        if "solve" in flags:
+            ctx.models = ctx.registry.models
+            axp = list(plan.extra_axioms)
+            for rep_ in range(3):
+                smt._OBS = [(ob, (axp, sums.sum_axioms()), rep.leaves)]
+                t = time.time()
+                if "profile" in flags:
+                    import cProfile, pstats
+                    pr = cProfile.Profile(); pr.enable()
+                r = smt._solve(0)
+                if "profile" in flags:
+                    pr.disable()
+                    if time.time() - t > 10:
+                        pstats.Stats(pr).sort_stats("cumulative").print_stats(18)
+                print("   _solve ->", r[1], "%.2fs" % (time.time() - t), r[4], (r[5] or "")[:200])
+            continue
         for ax in ([False, True] if "both" in flags else ["noax" not in flags]):
             s = z3.Solver()
             s.set("timeout", 30000)
